@@ -355,6 +355,8 @@ def run_history(plan, datadir, crash_at=None, arm_last=False, bufsize=0):
             if last and crash_at is not None:
                 try:
                     lib.write(list(blocks), datadir)
+                    # the failing file operation was swallowed: the call tells its caller that the batch was written
+                    out["returned_normally"] = fs.crashed is not None
                 except Crash:
                     pass
                 except Exception:  # noqa: BLE001 - judged on what is on disk at the crash point
@@ -480,6 +482,13 @@ def check_crash(case):
             if bad and bad[0] not in seen:
                 seen.add(bad[0])
                 f.add(f"crash/{bad[0]}/first-at-{_point_kind(points[i])}", f"point {i}/{n} {points[i]}: {bad[1]}")
+            if out.get("returned_normally") and not bad and "swallowed" not in seen:
+                # a file operation failed (the same fault as an I/O error or an interrupt) and the call still returned
+                # normally: its caller takes every block of the batch as written, so they all have to be there
+                miss = compare(before, after, info, out["obs"], out["odd"])
+                if miss:
+                    seen.add("swallowed")
+                    f.add(f"fault/call-returns-normally-with-records-missing/first-at-{_point_kind(points[i])}", f"point {i}/{n} {points[i]}: {miss[1]}")
         # the same batch under the buffered model (what reaches the disk is decided by flush/close, a crash discards
         # unflushed buffers): Python's default buffer, and one small enough for larger records to go straight through
         for bufsize in (8192, max(9, plan.L // 3)):
